@@ -19,8 +19,9 @@ def m1(ctx, module, cfg, worker, extra=None, timeout_s=3000, marker='pc = "ret"'
     carry = []
     for i in range(len(cases)):
         o = res[i]
-        if o.get("st") == "crashed":
-            ctx.violation("M1", "the interpreter crashed (rc=%s) while executing the call" % o.get("rc"),
+        if o.get("st") in ("crashed", "timeout"):
+            ctx.violation("M1", "the call did not terminate within %ss" % o.get("limit_s") if o.get("st") == "timeout" else
+                          "the interpreter crashed (rc=%s) while executing the call" % o.get("rc"),
                           dict(mode="state", state=cases[i]["state"], extra=extra), cls="crash")
             nbad += 1
             continue
@@ -58,8 +59,11 @@ def m2(ctx, worker, trace_module, trace_cfg, n_events, make_negatives, shards=16
         e = dict(e); e["id"] = nid; nid += 1
         events.append(e)
     for k in range(shards):
-        if out[k].get("st") == "crashed":
-            raise core.Machinery("M2 driver %s crashed" % worker)
+        if out[k].get("st") in ("crashed", "timeout"):
+            ctx.violation("M2", "a call made by the random driver %s (shard %d, seed %d)" % (
+                "did not terminate" if out[k]["st"] == "timeout" else "crashed the interpreter", k, cs[k]["seed"]),
+                dict(mode="shard", shard=cs[k]), cls=out[k]["st"])
+            continue
         for e in out[k]["events"]:
             e = dict(e); e["id"] = nid; nid += 1
             events.append(e)
